@@ -12,9 +12,12 @@ attributes at every attribute-nested level, each equal to the one loaded without
 skipping names at load time == at save time; recorded lists suffice on a later plain load;
 absent names change nothing; a store holding every attribute whose root metadata gets skip lists
 (names and types) written into it afterwards loads like an explicit load-time skip.  Plus Ptychography.save's own skip=["_dset","dset"] on a toy
-reconstruction object."""
+reconstruction object, and the library's OWN CALLER of the skip machinery as a family (gen_ptycho_cases): Ptychography.save(skip=<caller's
+names / types>, save_raw_data=False|True) on a toy reconstruction carrying extra attribute-nested levels, loaded by load(skip=names) /
+load / Ptychography.from_file, both stores: the same oracle clauses (oracle only; impl_C01.run_ptycho_skip_case)."""
 from __future__ import annotations
 
+import hashlib
 import json
 
 from ..common import Ctx
@@ -281,6 +284,43 @@ def names_in(spec, acc):
     return acc
 
 
+# THE LIBRARY'S OWN CALLER of the skip machinery: Ptychography.save(skip=..., save_raw_data=...) merges the caller's list with
+# its default ["_dset", "dset"]; the property's clauses hold for that caller exactly as for a plain AutoSerialize object
+PT_ROOT_NAMES = ["_rng_seed", "_obj_fov_mask", "_val_ratio", "_iter_losses", "_batch_size", "_obj_padding_px", "_propagators",
+                 "_rng", "_val_mode", "_preprocessed", "_detector_model", "_notes"]
+PT_NESTED_NAMES = ["depth_note", "gain", "_rng_seed", "weights", "gen", "label", "_val_ratio", "data"]   # two recur at the root
+PT_KINDS = ["int", "float", "str", "ndarray", "tensor", "gen", "list"]
+PT_TYPES = ["numpy.random.Generator", "torch.Tensor", "numpy.ndarray", "builtins.float", "builtins.list"]
+PT_GRID = [(True, "save"), (False, "save"), (True, "both"), (False, "load"), (True, "load"), (False, "both")]
+
+
+def gen_ptycho_cases(ctx: Ctx):
+    r = ctx.rng
+    cases = []
+    for j in range(ctx.budget(6, 36)):
+        raw, when = PT_GRID[j % len(PT_GRID)]
+        ent = lambda k: [[nm, r.choice(PT_KINDS), r.randrange(10 ** 6)] for nm in r.sample(PT_NESTED_NAMES, k)]  # noqa: E731
+        hang = {"det": ent(r.randint(2, 3)), "notes": ent(r.randint(3, 4)), "inner": ent(r.randint(2, 4))}
+        nested = sorted({e[0] for lv in hang.values() for e in lv} | {"inner"})
+        pick = lambda: r.sample(PT_ROOT_NAMES, r.randint(1, 2)) + r.sample(nested, r.randint(1, 2)) + \
+            r.sample(ABSENT, r.choice([0, 1]))  # noqa: E731
+        form = r.choice(["list", "list", "tuple", "scalar"])
+        sn = pick() if when in ("save", "both") else []
+        ln = pick() if when in ("load", "both") else []
+        st = r.sample(PT_TYPES, r.choice([1, 1, 2])) if (when != "load" and (j % len(PT_GRID) == 0 or r.random() < 0.5)) else []
+        if form == "scalar":                     # a single name (or type) given as such, not in a list
+            if sn and r.random() < 0.5 and st:
+                sn, st = [], st[:1]
+            else:
+                sn, st = sn[:1], []
+            ln = ln[:1]
+        cases.append({"id": "p%03d" % j, "prop": "C14", "label": "ptycho-own-caller", "raw": raw, "store": r.choice(["zip", "dir"]),
+                      "when": when, "save_names": sn, "save_types": st, "load_names": ln, "hang": hang,
+                      "scalar_form": form == "scalar", "tuple_form": form == "tuple",
+                      "via": r.choice(["load", "from_file"])})
+    return cases
+
+
 def gen_cases(ctx: Ctx):
     r = ctx.rng
     cases = []
@@ -378,7 +418,13 @@ def run(ctx: Ctx):
         "type; every 7th case 1-2 types at LOAD time: correspondence only) x (store, compression, "
         "str|Path, mode); every 11th graph has objects inside containers (outside the quantifier: asymmetry recorded only); "
         "distinct by (spec, skip lists, configuration), non-trivial when at least one present name or type is skipped; "
-        "plus Ptychography.save's own skip on a toy reconstruction; plus 16 (thorough 320) LOOK-ALIKE cases: graphs (depth 0-3) whose attributes hold Python numbers / "
+        "plus Ptychography.save's own skip on a toy reconstruction; plus 6 (thorough 36) OWN-CALLER cases: Ptychography.save(skip=caller's list, save_raw_data) "
+        "on a toy reconstruction with 2-3 attributes hung on its detector model and a two-level NodeA/NodeB tree (8 names, two of them also root "
+        "attributes of the reconstruction; int/float/str/ndarray/tensor/Generator/list values) x grid (save_raw_data True|False) x (skip at save, load, both) "
+        "x store x skip given as list / tuple / single str-or-type x 1-2 root names + 1-2 nested names + 0-1 absent names per list x (save, both) 0-2 of 5 types "
+        "x plain load by load() or Ptychography.from_file: listed names / instances of listed types absent at every attribute-nested level, the rest equal to "
+        "the load of a save without the caller's list, _dset follows save_raw_data, load(skip=names) of that save == save(skip=names) + load (oracle only); "
+        "plus 16 (thorough 320) LOOK-ALIKE cases: graphs (depth 0-3) whose attributes hold Python numbers / "
         "str / None / containers next to NumPy scalars of every dtype, pathlib.Path and 0-d arrays of the same families x type lists of Python primitive "
         "and NumPy / pathlib types, 1-2 chosen against look-alikes present, at save time (oracle), save + repeated at load (oracle), load only and "
         "different lists (model only), with and without name lists")
@@ -400,7 +446,10 @@ def _run(ctx: Ctx):
     from ..impl_C01 import run_ptycho_case
     cases = gen_cases(ctx)
     ctx.log("running %d cases (+ the Ptychography.save corpus case) on the implementation" % len(cases))
+    from ..impl_C01 import run_ptycho_skip_case
+    pcases = gen_ptycho_cases(ctx)
     fut = G.pool().submit(run_ptycho_case)
+    pfuts = [G.pool().submit(run_ptycho_skip_case, pc) for pc in pcases]
     results = G.run_cases(cases)
     exprs, idx = [], []
     n_sel = n_asym = n_asym_seen = n_rec = n_hyb_child = n_hyb_child_surv = 0
@@ -498,6 +547,28 @@ def _run(ctx: Ctx):
     ctx.dist("corpus/ptychography-save")
     for key, msg in pt["diffs"]:
         ctx.violation(key, "Ptychography.save skip: " + msg, {"kind": "ptycho", "diffs": pt["diffs"][:8]})
+    # the library's own caller: save_raw_data x store x caller skip lists at save time / load time / both (oracle only)
+    for pc, pf in zip(pcases, pfuts):
+        try:
+            pr = pf.result()
+        except Exception as e:  # noqa  (pool broken by a worker killed from outside)
+            if type(e).__name__ not in ("BrokenProcessPool", "CancelledError"):
+                raise
+            pr = run_ptycho_skip_case(pc)
+        if pr.get("harness_exc"):
+            raise RuntimeError("harness failure on the Ptychography skip case %s: %s" % (pc["id"], pr["harness_exc"]))
+        ctx.count("ptycho-own-caller/" + hashlib.sha1(json.dumps(pc, sort_keys=True).encode()).hexdigest(), nontrivial=pr.get("n_removed_present", 0) > 0)
+        ctx.dist("ptycho-own-caller/save_raw_data=%s/skip-at-%s" % (pc["raw"], pc["when"]))
+        ctx.dist("ptycho-own-caller/store/" + pc["store"])
+        ctx.dist("ptycho-own-caller/skip-form/" + ("scalar" if pc["scalar_form"] else "tuple" if pc["tuple_form"] else "list"))
+        ctx.dist("ptycho-own-caller/plain-load-via/" + ("load(skip=names)" if pc["load_names"] else pc["via"]))
+        for t in pc["save_types"]:
+            ctx.dist("ptycho-own-caller/save-type/" + t)
+        for k, n in pr["stats"].items():
+            ctx.dist("ptycho-own-caller/" + k, n)
+        for key, msg in pr["diffs"]:
+            ctx.violation(key, "Ptychography.save skip [%s]: %s" % (pc["id"], msg),
+                          {"kind": "ptycho-skip", "case": pc, "diffs": pr["diffs"][:8]})
     ctx.log("oracle done; %d model evaluations" % len(exprs))
     vals = ctx.coq_eval("skip", PRE, exprs, shard=8, timeout=900)
     names = ["wf", "attr_nested", "encode", "decode", "model-skip", "skip-roundtrip", "names-commute", "types-at-save", "written-unique-names"]
@@ -553,6 +624,19 @@ def replay(ctx: Ctx, path):
         for k, m in pt["diffs"]:
             print("oracle: [%s] %s" % (k, m))
         return 1 if pt["diffs"] else 0
+    if rp.get("kind") == "ptycho-skip":
+        from ..impl_C01 import run_ptycho_skip_case
+        pc = rp["case"]
+        pr = run_ptycho_skip_case(pc)
+        print("Ptychography.save(skip=names %s + types %s, save_raw_data=%s, store=%s); load skip names %s; hung attributes %s" % (
+            pc["save_names"], pc["save_types"], pc["raw"], pc["store"], pc["load_names"], json.dumps(pc["hang"])))
+        if pr.get("harness_exc"):
+            print(pr["harness_exc"])
+        for k, m in pr["diffs"]:
+            print("oracle: [%s] %s" % (k, m))
+        if not pr["diffs"]:
+            print("oracle: property holds on this case")
+        return 1 if pr["diffs"] else 0
     if rp.get("kind") != "case":
         print("replay of kind %r: re-run ./check C14" % rp.get("kind"))
         return 0
